@@ -3,5 +3,6 @@
 //! Everything here observes the real watchexec crates through their public API plus the
 //! `cfg(watchexec_verif)` trace points; nothing here decides a verdict. Verdicts come from TLC.
 
+pub mod pool;
 pub mod simchild;
 pub mod trace;
